@@ -173,12 +173,16 @@ class SimFileIO(io.FileIO):
                 existed = False
         mutating = replaces or (creates and not existed)
         dec = world.event("open:" + mode, self._rel, 0, mutating, fobj=None)
+        tidx = len(world.trace) - 1
         if dec is not None and dec[0] == "eacces_open":
+            world.note_failed(PermissionError(), tidx)
             raise PermissionError(errno.EACCES, "Permission denied (injected)", str(path))
         try:
             super().__init__(path, mode, closefd, opener)
-        except OSError as e:
-            world.note_failed(e)
+        except BaseException as e:
+            # (an opener may have performed traced operations of its own, and
+            # the process may have been killed inside it)
+            world.note_failed(e, tidx)
             raise
         if mutating:
             world.stamp_fd(self.fileno())
@@ -390,10 +394,14 @@ class World:
         proc.zombie = True
         proc.crashed = True
 
-    def note_failed(self, exc):
+    def note_failed(self, exc, idx=None):
+        """Marks a traced operation as one the kernel refused."""
         if self.trace:
-            t = self.trace[-1]
-            self.trace[-1] = t[:5] + ("failed:" + type(exc).__name__,)
+            i = len(self.trace) - 1 if idx is None else idx
+            if 0 <= i < len(self.trace):
+                t = self.trace[i]
+                if not t[5].startswith("failed"):
+                    self.trace[i] = t[:5] + ("failed:" + type(exc).__name__,)
 
     def track(self, fobj):
         self.open_files.append(weakref.ref(fobj))
@@ -621,8 +629,14 @@ class World:
             return None
         rs, rd = self.rel(os.fspath(src)), self.rel(os.fspath(dst))
         self.event(name, rd, 0, True)
-        self.trace[-1] = self.trace[-1][:5] + ("from:" + rs,)
-        return _REAL[name](src, dst, *a, **kw)
+        tidx = len(self.trace) - 1
+        self.trace[tidx] = self.trace[tidx][:5] + ("from:" + rs,)
+        try:
+            return _REAL[name](src, dst, *a, **kw)
+        except OSError as e:
+            self.trace[tidx] = self.trace[tidx][:5] + ("",)
+            self.note_failed(e, tidx)
+            raise
 
     def sim_replace(self, src, dst, *a, **kw):
         return self._two_path("replace", src, dst, a, kw)
@@ -640,10 +654,11 @@ class World:
         if p.zombie:
             return None
         self.event("unlink", self.rel(os.fspath(path)), 0, True)
+        tidx = len(self.trace) - 1
         try:
             return _REAL["unlink"](path, *a, **kw)
         except OSError as e:
-            self.note_failed(e)
+            self.note_failed(e, tidx)
             raise
 
     def sim_truncate(self, path, length):
@@ -687,10 +702,11 @@ class World:
         opname = "osopen:" + ("T" if flags & os.O_TRUNC else "") + ("C" if flags & os.O_CREAT else "") + (
             "X" if flags & os.O_EXCL else "") + ("W" if flags & (os.O_WRONLY | os.O_RDWR) else "R")
         self.event(opname, self.rel(os.fspath(path)), 0, mutating)
+        tidx = len(self.trace) - 1
         try:
             fd = _REAL["os_open"](path, flags, mode)
         except OSError as e:
-            self.note_failed(e)
+            self.note_failed(e, tidx)
             raise
         if mutating:
             self.stamp_fd(fd)
